@@ -146,6 +146,18 @@ func ruleVALIDATE(p *Program, rep *Report) {
 			}
 		}
 		s, seen := vp.valid[src]
+		if src == 0 && len(vp.valid) >= 2 {
+			// the returned element is selected by a non-constant index: every candidate must be validated
+			allValid := true
+			for _, vs := range vp.valid {
+				if e.st.nilF[vs] != 1 {
+					allValid = false
+				}
+			}
+			if allValid {
+				continue
+			}
+		}
 		if src == 0 || !seen || e.st.nilF[s] != 1 {
 			bad = true
 			rep.Bad("VALIDATE", "readValidMeta|returns-unvalidated", pos, "readValidMeta can return, with a nil error, a header that is not known to have passed Validate(): a damaged header wins")
